@@ -205,6 +205,11 @@ class PartProcessor(PartHandler, Maintainable):
             self._env.cancel_matching_events(asset_id = self.id)
         else:
             self._env.pause_matching_events(asset_id = self.id)
+            if self._part == None:
+                # No Part is being processed so the resources are not
+                # needed during the shutdown (a pending release may
+                # have just been paused).
+                self._release_reserved_resources()
 
         self._uptime += self.env.now - self._last_restore
         self._last_restore = None
